@@ -54,6 +54,17 @@ fn q_build(s: &Sch, q: &Q) -> Box<dyn Query> {
     }
 }
 
+/// at most 3 witnesses per signature and thread (the occurrence count is kept as a counter)
+fn viol(rep: &mut Report, sig: impl Into<String>, w: Value) {
+    let sig = sig.into();
+    let key = format!("occurrences[{sig}]");
+    let n = rep.counters.get(&key).cloned().unwrap_or(0);
+    rep.count(&key, 1);
+    if n < 3 {
+        rep.violation(sig, w);
+    }
+}
+
 fn squash(e: &str) -> String {
     let mut s: String = e
         .chars()
@@ -487,6 +498,13 @@ fn report_mismatches(
             // TopHitsSegmentCollector::prepare_max_bucket uses Vec::resize, which truncates the
             // per-bucket state when a later flush of the parent carries a smaller max bucket id
             "tophits-sub-aggregation/hits-lost-after-second-flush:prepare_max_bucket-resize-truncates".to_string()
+        } else if m.path.ends_with("xstats")
+            && m.detail.ends_with("got null")
+            && (m.what.starts_with("std_deviation") || m.what.starts_with("lower") || m.what.starts_with("upper"))
+        {
+            // rounding made the variance of (nearly) constant data slightly negative; its square
+            // root is NaN, serialised as null
+            "extended_stats/std_deviation-is-NaN-when-rounding-makes-the-variance-negative".to_string()
         } else if m.what == "order-key-f64-mixed" {
             "terms/_key-order-on-f64-field:integral-keys-sorted-before-fractional-keys".to_string()
         } else if ct.contains("composite-histogram-source-missing_order-last-skips-every-value/") {
@@ -502,7 +520,7 @@ fn report_mismatches(
         let mut w = witness.clone();
         w["mismatch"] = json!(m.detail);
         w["partition"] = json!(part.shape);
-        rep.violation(sig, w);
+        viol(rep, sig, w);
     }
 }
 
@@ -543,7 +561,7 @@ fn case_fn(quick: bool) -> impl Fn(u64, &mut Rng, &mut Report) + Sync {
                 match build_index(&sch, &corpus, l) {
                     Ok(b) => built.push(b),
                     Err(e) => {
-                        rep.violation(format!("api-error:index-build:{}", squash(&e)), json!({"error": e}));
+                        viol(rep, format!("api-error:index-build:{}", squash(&e)), json!({"error": e}));
                         return;
                     }
                 }
@@ -581,7 +599,7 @@ fn case_fn(quick: bool) -> impl Fn(u64, &mut Rng, &mut Report) + Sync {
             let req: Aggregations = match serde_json::from_value(req_json.clone()) {
                 Ok(r) => r,
                 Err(e) => {
-                    rep.violation(
+                    viol(rep, 
                         format!("api-error:request-deserialize:{}", squash(&e.to_string())),
                         json!({"request": req_json, "error": e.to_string()}),
                     );
@@ -695,7 +713,7 @@ fn case_fn(quick: bool) -> impl Fn(u64, &mut Rng, &mut Report) + Sync {
                             w["partition"] = json!(part.shape);
                             w["variant"] = json!(variant);
                             w["kinds"] = json!(shape);
-                            rep.violation(error_signature(&corpus, prefix, kind, e, &rc), w);
+                            viol(rep, error_signature(&corpus, prefix, kind, e, &rc), w);
                             if pi == 0 {
                                 direct_ok = false;
                             }
@@ -747,9 +765,9 @@ fn case_fn(quick: bool) -> impl Fn(u64, &mut Rng, &mut Report) + Sync {
                     match r {
                         Err((kind, e)) => {
                             if kind == "panic" {
-                                rep.violation(format!("limits/panic:{}", squash(&e)), w(json!(e)));
+                                viol(rep, error_signature(&corpus, "limits", &kind, &e, &rc), w(json!(e)));
                             } else if total <= limit as u64 && direct_ok {
-                                rep.violation("limits/bucket-limit:error-although-within-limit", w(json!(e)));
+                                viol(rep, "limits/bucket-limit:error-although-within-limit", w(json!(e)));
                             } else {
                                 rep.count("limit_errors_observed", 1);
                                 rep.observe("limit_error", squash(&e));
@@ -757,12 +775,12 @@ fn case_fn(quick: bool) -> impl Fn(u64, &mut Rng, &mut Report) + Sync {
                         }
                         Ok(got) => {
                             if total > limit as u64 {
-                                rep.violation("limits/bucket-limit:no-error-above-limit", w(got));
+                                viol(rep, "limits/bucket-limit:no-error-above-limit", w(got));
                             } else if direct_ok {
                                 let mut c = Cmp::new();
                                 c.cmp(&exp, &got);
                                 if !c.out.is_empty() {
-                                    rep.violation("limits/bucket-limit:different-result-within-limit", w(json!(c.out[0].detail)));
+                                    viol(rep, "limits/bucket-limit:different-result-within-limit", w(json!(c.out[0].detail)));
                                 }
                             }
                         }
@@ -772,7 +790,7 @@ fn case_fn(quick: bool) -> impl Fn(u64, &mut Rng, &mut Report) + Sync {
                     let r = run_single(&part.built[0], tq.as_ref(), &req, AggregationLimitsGuard::new(Some(mem), None));
                     match r {
                         Err((kind, e)) if kind == "panic" => {
-                            rep.violation(format!("limits/panic:{}", squash(&e)), json!({"witness": witness, "memory_limit": mem, "error": e}));
+                            viol(rep, error_signature(&corpus, "limits", &kind, &e, &rc), json!({"witness": witness, "memory_limit": mem, "error": e}));
                         }
                         Err((_, e)) => {
                             rep.count("limit_errors_observed", 1);
@@ -783,7 +801,7 @@ fn case_fn(quick: bool) -> impl Fn(u64, &mut Rng, &mut Report) + Sync {
                                 let mut c = Cmp::new();
                                 c.cmp(&exp, &got);
                                 if !c.out.is_empty() {
-                                    rep.violation(
+                                    viol(rep, 
                                         "limits/memory-limit:silently-different-result",
                                         json!({"witness": witness, "memory_limit": mem, "mismatch": c.out[0].detail}),
                                     );
@@ -799,7 +817,7 @@ fn case_fn(quick: bool) -> impl Fn(u64, &mut Rng, &mut Report) + Sync {
 
 fn main() {
     let ctx = Ctx::from_env("C14", "exploration");
-    let rep = run_cases(&ctx, "main", ctx.scale(36, 1700) as u64, case_fn(ctx.quick()));
+    let rep = run_cases(&ctx, "main", ctx.scale(120, 3400) as u64, case_fn(ctx.quick()));
     simple_finish(
         &ctx,
         rep,
@@ -814,7 +832,7 @@ fn main() {
          generated) x a filtering query (all / term / range). evaluations = (corpus, request, partition) triples, each \
          compared with a naive evaluator over the model documents. non-trivial = the result has >= 2 buckets or >= 2 \
          segments/indexes were merged; distinct = distinct (request kind+field tree, partition shape, query is-all) keys.",
-        ctx.scale(100, 3000),
+        ctx.scale(100, 5000),
         &[
             "terms aggregations are compared exactly only with segment_size >= cardinality; with a small segment_size only the documented bounds are asserted",
             "ties in _count / metric order are canonicalised: the sequence of sort values and the per-key contents are compared, not the order inside a tie",
